@@ -62,6 +62,10 @@ def s_tp_kernel(m, ip, S, F, smooth):
 
 
 def s_dir_from(m, ms, mc):
+    if not m.symbolic and (ms * ms + mc * mc) ** 0.5 < 1e-9:
+        # zero resultant: the direction is undefined (numerically decided by rounding noise);
+        # +inf tells the concrete comparison to skip this case
+        return float("inf")
     return m.mod(270 - (180 / m.pi) * m.atan2(ms, mc), 360)
 
 
@@ -198,7 +202,7 @@ def v_np_dpm(c):
         c.env["ip"] = ip
         g = lambda a, i: a[i]
     r = c.call(ip, ms, mc)
-    c.ensure_eq("mean_direction_at_peak_or_nan", r,
+    c.ensure_angle_eq("mean_direction_at_peak_or_nan", r,
                 ite(m, ip == 0, m.nan, lambda: s_dir_from(m, g(ms, ip), g(mc, ip))))
 
 
@@ -369,7 +373,7 @@ def v_x_dpm(c, dims):
     V = View(da)
     pos = c.position(V)
     c.ensure_dims("dims", r, V.pos_dims)
-    c.ensure_eq("mean_direction_at_the_same_peak_or_nan", c.value(r, pos), s_dpm(c.m, V, pos))
+    c.ensure_angle_eq("mean_direction_at_the_same_peak_or_nan", c.value(r, pos), s_dpm(c.m, V, pos))
 
 
 @contract(XS + "peak_directional_spread", props=["C02", "C06", "C20"], scenarios=SC_2D,
@@ -407,7 +411,7 @@ def _acc(name, spec, uses, kwargs_list=({},), scen=SC_2D, props=("C02", "C06", "
         pos = c.position(V)
         c.ensure_dims("dims", r, V.pos_dims)
         if symbolic_value or not c.m.symbolic:
-            c.ensure_eq("at_the_true_peak", c.value(r, pos), spec(c.m, V, pos, **kw))
+            (c.ensure_angle_eq if name in ("dpm", "dp") else c.ensure_eq)("at_the_true_peak", c.value(r, pos), spec(c.m, V, pos, **kw))
         own_position_only(c, da, r, pos, recompute=lambda d2: c.call(d2.spec, **kw))
 
     verify.__name__ = "v_acc_" + name
